@@ -1467,7 +1467,10 @@ def run(ctx):
 
 
 def engine_traces(ctx):
-    pass
+    """Real engine, oracle only: fork/join with publishes in YAQL and Jinja under several delivery orders and both
+    scheduler types: published variables and output must not depend on the order (C05 / C02)."""
+    from harness import engine_explore as ee
+    ee.explore(ctx, ['C05', 'C02', 'C01'], ['dataflow'], ctx.n(16, 160), 5, suite='engine_explore_C05')
 
 
 SUITES = [suite_outbound, suite_merge, suite_upstream, suite_final, suite_view, suite_get_publish, suite_publish,
